@@ -209,6 +209,34 @@ class Outcome:
         self.findings = load_findings(prop)
         self.matchers = matchers or {}
         self.notes = []
+        self._pin_cache = None
+        self.pin_seen = {}
+
+    # ---- pinned corpus (DESIGN 1.6): for a deterministic corpus the exact set of
+    # cases each known finding explains is recorded in findings.d/<prop>.pins.json
+    # per (tier, seed); a failing case that a matcher accepts but that is not in the
+    # pinned set is reported, so a change that merely *extends* a known defect to
+    # new inputs is not masked.  Pins are written only with PV_PIN=1 (development).
+    @staticmethod
+    def pin_key(case, clause):
+        if isinstance(case, dict):
+            flat = {k: v for k, v in case.items()
+                    if isinstance(v, (str, int, bool, type(None)))}
+        else:
+            flat = {"case": str(case)}
+        return chash([flat, clause])
+
+    def _pins(self):
+        if self._pin_cache is None:
+            path = os.path.join(VERIF, "findings.d", self.prop + ".pins.json")
+            data = {}
+            if os.path.exists(path):
+                with open(path) as f:
+                    data = json.load(f)
+            self._pin_cache = data.get(f"{self.tier}:{seed()}")
+            if self._pin_cache is not None:
+                self._pin_cache = {k: set(v) for k, v in self._pin_cache.items()}
+        return self._pin_cache
 
     def violation(self, case, clause, detail=None):
         '''Report a failing case; matched against known findings.'''
@@ -222,6 +250,15 @@ class Outcome:
             except Exception:   # a matcher that cannot decide does not match
                 hit = False
             if hit:
+                key = self.pin_key(case, clause)
+                self.pin_seen.setdefault(f["id"], set()).add(key)
+                pins = self._pins()
+                if pins is not None and not os.environ.get("PV_PIN") and \
+                        key not in pins.get(f["id"], ()):
+                    rec["reason"] = ("new-case-in-pinned-corpus: matches known finding "
+                                     + f["id"] + " but is not one of its pinned cases")
+                    self.violations.append(rec)
+                    return None
                 self.known_hit[f["id"]] = self.known_hit.get(f["id"], 0) + 1
                 self.known_examples.setdefault(f["id"], rec)
                 return f["id"]
@@ -263,6 +300,15 @@ class Outcome:
         if len(seen) > 25:
             lines.append(f"... {len(seen) - 25} more violations "
                          f"(see evidence and {REPLAYS})")
+        if os.environ.get("PV_PIN"):       # development: (re)write the pinned corpus
+            path = os.path.join(VERIF, "findings.d", self.prop + ".pins.json")
+            data = {}
+            if os.path.exists(path):
+                with open(path) as fp:
+                    data = json.load(fp)
+            data[f"{self.tier}:{seed()}"] = {k: sorted(v) for k, v in sorted(self.pin_seen.items())}
+            with open(path, "w") as fp:
+                json.dump(data, fp, indent=0, sort_keys=True)
         if os.environ.get("PV_DUMP"):      # development aid: all failing cases
             with open(os.environ["PV_DUMP"], "w") as fp:
                 json.dump(self.violations, fp, default=str)
